@@ -884,7 +884,9 @@ META = {
         'Network built with its real constructor, real Settings (upnp off; reconnect on with 2 s delay in the server harness), real EventBus',
         'settings.debug.ip_overrides (empty dict) -> object whose get() returns the default without hashing (exploration only)',
         'ServerConnection.read_timeout = 3 s in the server harness (public attribute; keeps the number of watchdog ticks small)',
-        'SoulSeekClient.login is not run: the harness starts the server reader task the way login() does'],
+        'SoulSeekClient.login is not run: the harness starts the server reader task the way login() does',
+        'the connection object of an accepted transport is read from the frame of the running ListeningConnection.accept callback (local '
+        '`connection`) or, once it returned, from the reports on the event bus - never from Network.peer_connections'],
     'data_variables': ['every byte of the first frame of an accepted connection (length-N body, N = 0..bound) and the 4 key bytes on the '
                        'obfuscated port', 'PeerInit user name bytes, typ byte, 32/64-bit ticket', 'PeerPierceFirewall ticket (32 bit) and the '
                        'tickets handed out by the ticket generator (32 bit, pairwise distinct)', 'length prefix of a frame cut by EOF (32 bit)',
@@ -894,6 +896,8 @@ META = {
                        'the port handed to open_connection (32-bit word from the wire or from the caller): decides between "attempt is '
                        'made" and "OverflowError before any I/O" (port > 65535)'],
     'discriminants': ['listening port (plain / obfuscated)', 'first-frame kind (15) and body length', 'TCP segmentation of the first frame (2)',
+                      'pace of the first frame: at once / after 20 s of silence / 5 s of silence then 3 pieces 5 s apart (the accepted, not yet '
+                      'initialised socket is observed at every idle moment and hit by every injected action in between)',
                       'end kind of an established connection (15)', 'kind of the injected concurrent action (7 + cancel + pierce) and the loop step '
                       'at which it happens (every step of the scenario)', 'way of opening (direct plain / obfuscated with fixed or symbolic port / address lookup / server request), '
                       'connect mode (fallback / race), typ (P/D/F)', 'outcome of open_connection (ok, ok after 1 s, refused, refused after 1 s, never)',
